@@ -58,7 +58,29 @@ def compare_ops(h, rel, qual, attr_or_name):
     return out
 
 
+def resolv_accept_rule(h):
+    """The test applied to `words` in helpers.resolvconf_nameservers, e.g.
+    ['len(words) >= 2', "words[0] == 'nameserver'", 'words[1]'] (conditions, then what is kept)."""
+    f = h.func(h.parse('sshuttle/helpers.py'), 'resolvconf_nameservers')
+    for n in ast.walk(f):
+        if isinstance(n, ast.If) and 'words' in _names(n.test):
+            conds = n.test.values if isinstance(n.test, ast.BoolOp) and isinstance(n.test.op, ast.And) else [n.test]
+            kept = [ast.unparse(c.args[0]) for c in h.calls(n, lambda c: h.callname(c) == 'family_ip_tuple')]
+            return [ast.unparse(c) for c in conds] + kept
+    raise KeyError('if … words … in resolvconf_nameservers')
+
+
+def resolv_words_expr(h):
+    f = h.func(h.parse('sshuttle/helpers.py'), 'resolvconf_nameservers')
+    for n in ast.walk(f):
+        if isinstance(n, ast.Assign) and isinstance(n.targets[0], ast.Name) and n.targets[0].id == 'words':
+            return ast.unparse(n.value)
+    raise KeyError('words = …')
+
+
 def generate(g, h):
+    g.strlist('RESOLV_ACCEPT_RULE', lambda: resolv_accept_rule(h))
+    g.string('RESOLV_WORDS_EXPR', lambda: resolv_words_expr(h))
     g.boolean('ONDNS_GUARDS_NO_ID', lambda: guards_no_id(h, 'ondns'))
     g.boolean('DNS_CONNECT_IN_TRY', lambda: connect_in_try(h))
     g.strlist('ONDNS_CALLS', lambda: call_order(h, 'sshuttle/client.py', 'ondns',
